@@ -745,9 +745,9 @@ class EvalMixin:
                 return
             raise Unsupported("list store with symbolic index")
         if isinstance(v, dict):
-            if is_sym(idx) or (isinstance(idx, EnumVal) and not idx.concrete):
-                raise Unsupported("dict store with symbolic key")
-            v[idx] = val
+            if isinstance(idx, EnumVal) and not idx.concrete:
+                raise Unsupported("dict store with symbolic enum key")
+            self.dict_store(v, idx, val)
             return
         if isinstance(v, SList):
             n = v.length
@@ -791,8 +791,26 @@ class EvalMixin:
             raise Unsupported("dict comprehension over symbolic-length sequence")
         d = {}
         for k, v in pairs:
-            d[k] = v
+            self.dict_store(d, k, v)
         return d
+
+    def dict_store(self, d, k, v):
+        """d[k] = v where k may be symbolic: an existing key that EQUALS k keeps its place and gets the new value
+        (decided concretely, or by forking the path); otherwise k is a new key."""
+        if not (is_sym(k) or any(is_sym(ek) for ek in d)):
+            d[k] = v
+            return
+        for ek in list(d):
+            eq = self.sym_eq(ek, k)
+            if isinstance(eq, bool):
+                if eq:
+                    d[ek] = v
+                    return
+                continue
+            if self.branch(eq):
+                d[ek] = v
+                return
+        d[k] = v
 
     def make_set(self, items):
         """set(items): an item is dropped iff it EQUALS an earlier one; equality that depends on symbolic values (also
